@@ -17,6 +17,7 @@ from ...avps.etsi_3gpp.ts_129_272 import ApnConfigurationAVP
 from ...avps.etsi_3gpp.ts_129_272 import ServiceSelectionAVP
 
 from ...avps.etsi_3gpp.ts_129_273 import Mip6FeatureVectorAVP
+from ...avps.etsi_3gpp.ts_129_273 import AnTrustedAVP
 
 from ...avps.ietf.rfc5447 import Mip6AgentInfoAVP
 
